@@ -1,10 +1,139 @@
 /-
-C02 — property theorems.
+C02 — property theorems (statements, short proofs from the lemmas, non-vacuity examples).
+Helper lemmas: Proofs.lean (decision logic), History.lean (conservation, cool-off bookkeeping = history).
+
+"capacity estimate" = `Shedder.maxFlight` = max(1, peak per-bucket pass count × min rounded per-bucket average
+latency × windowScale) over the sliding window with the current bucket ignored.
 -/
-import GoZero.C02.Spec
+import GoZero.C02.History
 namespace GoZero.C02
 
-/-- a disabled shedder (nopShedder) never sheds. -/
+/-- **Sheds only when hot and busy.**  For every shedder state, time, checker verdict and CPU reading:
+if `Allow` returns ErrServiceOverloaded then the CPU verdict at that call was "over threshold", or shedding
+was in progress (`droppedRecently`) and an Allow saw the CPU over the threshold less than one second ago
+(`overloadTime`); and both the in-flight count and its moving average exceed 10 % of the capacity estimate. -/
+theorem shed_only_if_hot_and_busy (s : Shedder) (now : Nat) (cpuOver : Bool) (cpu : Int)
+    (h : (s.allow now cpuOver cpu).2 = .overloaded) :
+    (cpuOver = true ∨
+      (s.droppedRecently = true ∧ s.overloadTime ≠ 0 ∧ now - s.overloadTime < 1000000000))
+    ∧ 10 * (s.flying : Rat) > s.maxFlight now
+    ∧ 10 * s.avgFlying > s.maxFlight now
+    ∧ 1 ≤ s.flying := by
+  have hd := (shouldDrop_iff s now cpuOver cpu).mp ((allow_verdict s now cpuOver cpu).mp h)
+  have hb := limit_bounds s now cpu
+  have hp := limit_pos s now cpu
+  refine ⟨?_, ?_, ?_, ?_⟩
+  · rcases hd.1 with h1 | h1
+    · exact Or.inl h1
+    · exact Or.inr ((stillHot_iff s now).mp h1)
+  · grind
+  · grind
+  · have : (0 : Rat) < (s.flying : Rat) := by grind
+    have := Rat.intCast_pos.mp this
+    omega
+
+/-- **Does shed when over capacity.**  CPU verdict "over threshold" and both the in-flight count and its moving
+average above the full capacity estimate ⇒ `Allow` returns ErrServiceOverloaded, whatever the CPU reading
+used for the factor. -/
+theorem sheds_when_over_capacity (s : Shedder) (now : Nat) (cpu : Int)
+    (hf : (s.flying : Rat) > s.maxFlight now) (ha : s.avgFlying > s.maxFlight now) :
+    (s.allow now true cpu).2 = .overloaded := by
+  apply (allow_verdict s now true cpu).mpr
+  apply (shouldDrop_iff s now true cpu).mpr
+  have hb := limit_bounds s now cpu
+  refine ⟨Or.inl rfl, ?_, ?_⟩ <;> grind
+
+/-- the same while the cool-off is running (shedding in progress, hot Allow less than a second ago). -/
+theorem sheds_when_over_capacity_still_hot (s : Shedder) (now : Nat) (cpu : Int)
+    (hd : s.droppedRecently = true) (ho : s.overloadTime ≠ 0) (hc : now - s.overloadTime < 1000000000)
+    (hf : (s.flying : Rat) > s.maxFlight now) (ha : s.avgFlying > s.maxFlight now) :
+    (s.allow now false cpu).2 = .overloaded := by
+  apply (allow_verdict s now false cpu).mpr
+  apply (shouldDrop_iff s now false cpu).mpr
+  have hb := limit_bounds s now cpu
+  refine ⟨Or.inr ((stillHot_iff s now).mpr ⟨hd, ho, hc⟩), ?_, ?_⟩ <;> grind
+
+/-- **With nothing in flight nothing is shed** (state form): `flying ≤ 0` ⇒ admitted, for every CPU input. -/
+theorem nothing_in_flight_never_sheds (s : Shedder) (now : Nat) (cpuOver : Bool) (cpu : Int)
+    (h0 : s.flying ≤ 0) : (s.allow now cpuOver cpu).2 = .admitted := by
+  cases hv : (s.allow now cpuOver cpu).2 with
+  | admitted => rfl
+  | overloaded =>
+    have := (shed_only_if_hot_and_busy s now cpuOver cpu hv).2.2.2
+    omega
+
+/-- **In-flight conservation.**  Over every well-formed history (any Allow / Pass / Fail / time-gap sequence in
+which each promise is resolved at most once, by Pass or by Fail), starting from a fresh shedder, the `flying`
+counter equals the number of promises admitted and not yet resolved. -/
+theorem flying_conservation (st : St) (h0 : st.sh.flying = 0) (ops : List HOp) (h : HSt)
+    (hr : hrun (HSt.init st) ops = some h) :
+    h.st.sh.flying = (h.outstanding.length : Int) :=
+  hrun_conserves ops (HSt.init st) h (by simp [HSt.init, h0]) hr
+
+/-- hence: once every admitted request has been resolved, the next Allow is admitted, whatever the CPU does. -/
+theorem all_resolved_then_admitted (st : St) (h0 : st.sh.flying = 0) (ops : List HOp) (h : HSt)
+    (hr : hrun (HSt.init st) ops = some h) (hnone : h.outstanding = []) (cpuOver : Bool) (cpu : Int) :
+    (h.st.sh.allow h.st.now cpuOver cpu).2 = .admitted := by
+  apply nothing_in_flight_never_sheds
+  rw [flying_conservation st h0 ops h hr, hnone]
+  simp
+
+/-- a shed therefore means at least one admitted request is unfinished — more than 10 % of the capacity
+estimate of them. -/
+theorem shed_implies_unfinished_requests (st : St) (h0 : st.sh.flying = 0) (ops : List HOp) (h : HSt)
+    (hr : hrun (HSt.init st) ops = some h) (cpuOver : Bool) (cpu : Int)
+    (hv : (h.st.sh.allow h.st.now cpuOver cpu).2 = .overloaded) :
+    10 * ((h.outstanding.length : Int) : Rat) > h.st.sh.maxFlight h.st.now ∧ 1 ≤ h.outstanding.length := by
+  have hc := flying_conservation st h0 ops h hr
+  have hs := shed_only_if_hot_and_busy h.st.sh h.st.now cpuOver cpu hv
+  rw [hc] at hs
+  exact ⟨hs.2.1, by omega⟩
+
+/-- **The cool-off bookkeeping is the history.**  Along every run (times positive), the model state and the
+history summary stay related: `overloadTime` is the time of the latest Allow that saw the CPU over the
+threshold (`lastOver`), `droppedRecently` is "a request has been shed and no later Allow has seen the cool-off
+lapse" (`inProgress`), `flying` = admitted − resolved and `avgFlying` is the β = 0.9 average of the history. -/
+theorem bookkeeping_is_history (st : St) (h : Spec.Hist) (r : Ref st h) (ops : List Op) :
+    ∃ h', Ref (run st ops) h' := by
+  induction ops generalizing st h with
+  | nil => exact ⟨h, r⟩
+  | cons op ops ih => exact ih (step st op).1 _ (ref_step st h r op)
+
+/-- the first clause on the history alone: a shed at a calm CPU happens only while `Hist.hot`. -/
+theorem shed_only_if_history_hot (st : St) (h : Spec.Hist) (r : Ref st h) (cpuOver : Bool) (cpu : Int)
+    (hv : (st.sh.allow st.now cpuOver cpu).2 = .overloaded) :
+    (cpuOver = true ∨ h.hot = true) ∧ 10 * (h.inFlight : Rat) > st.sh.maxFlight st.now := by
+  have hd := (shouldDrop_iff st.sh st.now cpuOver cpu).mp ((allow_verdict st.sh st.now cpuOver cpu).mp hv)
+  have hs := shed_only_if_hot_and_busy st.sh st.now cpuOver cpu hv
+  rw [ref_hot st h r] at hd
+  rw [r.fly]
+  exact ⟨hd.1, hs.2.1⟩
+
+/-- **A disabled shedder never sheds** (`NewAdaptiveShedder` returns the nop shedder when disabled). -/
 theorem disabled_never_sheds : nopAllow = Verdict.admitted := rfl
+
+/-! ### non-vacuity: concrete states meeting the hypotheses -/
+
+/-- 100 ms buckets (scale 1/100), default latency 1000 ms, no passes: capacity 10. -/
+def exShedder (flying : Int) (avg : Rat) (ot : Nat) (dr : Bool) : Shedder :=
+  { (Shedder.new 1000000000 10 900 1) with flying := flying, avgFlying := avg, overloadTime := ot, droppedRecently := dr }
+
+example : (exShedder 11 (21 / 2) 0 false).maxFlight 5 = 10 := by decide +kernel
+-- over capacity with an overloaded CPU: shed (even with factor 1, cpu = 0)
+example : ((exShedder 11 (21 / 2) 0 false).allow 5 true 0).2 = .overloaded := by decide +kernel
+-- 2 in flight = 20 % of capacity, CPU at 1000: factor floor 1/10 → limit 1 → shed
+example : ((exShedder 2 (3 / 2) 0 false).allow 5 true 1000).2 = .overloaded := by decide +kernel
+-- exactly 10 % of capacity in flight: not shed
+example : ((exShedder 1 1 0 false).allow 5 true 1000).2 = .admitted := by decide +kernel
+-- calm CPU, hot Allow 999999999 ns ago, shedding in progress: shed; one nanosecond later: admitted
+example : ((exShedder 11 11 7 true).allow (7 + 999999999) false 0).2 = .overloaded := by decide +kernel
+example : ((exShedder 11 11 7 true).allow (7 + 1000000000) false 0).2 = .admitted := by decide +kernel
+-- a well-formed history: two admitted, one passed → one in flight
+example : (hrun (HSt.init ⟨1, Shedder.new 1000000000 10 900 1⟩)
+    [.allow false 0, .allow true 950, .advance 3000000, .pass 0]).map (fun h => (h.st.sh.flying, h.outstanding))
+    = some (1, [(1, 1)]) := by decide +kernel
+-- resolving a promise twice is not a well-formed history
+example : (hrun (HSt.init ⟨1, Shedder.new 1000000000 10 900 1⟩) [.allow false 0, .pass 0, .fail 0]).isNone := by
+  decide +kernel
 
 end GoZero.C02
